@@ -117,6 +117,7 @@ func checkPosaSync(c *core.Ctx, pkg, typ string, full bool) {
 			}
 			checkPosaScanDepth(c, pkg, fn, gpc)
 			checkPosaEpochWindow(c, fn, gpc)
+			checkInTurnModulus(c, pkg, fn)
 		}
 		// valid flag
 		var flagIf *ssa.If
